@@ -650,6 +650,8 @@ def governing_config(ck, rule):
         r = peel(pf.ret)[0]
         has_out = [g for g in pf.guards if g[2] is not None and src(g[2]) == "out is not None"]
         has_like = [g for g in pf.guards if g[2] is not None and src(g[2]) == "out_like is not None"]
+        if len({g[1] for g in has_out}) > 1:
+            continue    # out tested twice with different outcomes: excluded by the isinstance(out, Fxp) check in between
         out_given = bool(has_out and has_out[-1][1])
         like_given = bool(has_like and has_like[-1][1])
         if isinstance(r, ast.Call) and isinstance(r.func, ast.Attribute) and r.func.attr == "set_val":
